@@ -114,9 +114,17 @@ def _supplies_from_flow(rng, n, arcs, p_use=0.6, p_full=0.6):
 
 
 def _labels(rng, n):
-    kind = rng.choice(["none", "none", "perm", "str", "tuple", "mixed"])
+    kind = rng.choice(["none", "none", "perm", "str", "tuple", "mixed", "falsy"])
     if kind == "none":
         return None
+    if kind == "falsy":
+        # None, "", () and frozenset() are ordinary hashable node labels
+        special = [None, "", (), frozenset()]
+        rng.shuffle(special)
+        labs = [100 + i for i in range(n)]
+        for k, pos in enumerate(rng.sample(range(n), min(n, rng.randint(1, len(special))))):
+            labs[pos] = special[k]
+        return labs
     if kind == "perm":
         return rng.sample(range(0, 3 * n + 5), n)
     if kind == "str":
